@@ -362,6 +362,10 @@ fn map_indexes(
     indexes: &[usize],
     tree_depth: usize,
 ) -> Result<BTreeMap<usize, usize>, MerkleTreeError> {
+    // the depth may come from an untrusted proof
+    if tree_depth >= usize::BITS as usize {
+        return Err(MerkleTreeError::InvalidProof);
+    }
     let num_leaves = 2usize.pow(tree_depth as u32);
     let mut map = BTreeMap::new();
     for (i, index) in indexes.iter().cloned().enumerate() {
